@@ -132,7 +132,11 @@ reftable_new_writer(ssize_t (*writer_func)(void *, const void *, size_t),
 		abort();
 	}
 	wp->last_key = reftable_empty_strbuf;
-	wp->block = reftable_calloc(opts->block_size);
+	/* A log block is compressed in place when it is finished; leave
+	 * room for the zlib worst case (incompressible data grows a
+	 * little). */
+	wp->block = reftable_calloc(opts->block_size +
+				    opts->block_size / 1000 + 64);
 	wp->write = writer_func;
 	wp->write_arg = writer_arg;
 	wp->opts = *opts;
@@ -524,6 +528,13 @@ static int writer_dump_object_index(struct reftable_writer *w)
 	struct common_prefix_arg common = { NULL };
 	if (w->obj_index_tree) {
 		infix_walk(w->obj_index_tree, &update_common, &common);
+	}
+	if (common.max + 1 >= (1 << 5)) {
+		/* The footer has 5 bits for the abbreviated object ID
+		 * length. Object IDs that only differ beyond that
+		 * cannot be indexed; the index is optional, so skip it.
+		 */
+		return 0;
 	}
 	w->stats.object_id_len = common.max + 1;
 
